@@ -50,6 +50,32 @@ def gen_naming():
     leaf = re.search(r"impl<T: ConstStr> MaybeConstStr for T \{\s*const MAYBE_VAL: &'static str = Self::VAL;\s*const LEN: usize = const \{ Self::VAL\.len\(\) \};\s*const HAVE_VAL: bool = true;\s*fn extend\(into: &mut String\) \{\s*into\.push_str\(Self::VAL\);\s*\}\s*\}", src)
     if not leaf:
         raise Exception("concat.rs: impl MaybeConstStr for T: ConstStr changed shape")
+    # ---- forwarding `impl InflectableEntry<NS> for <container of T>` in metrique-core -----------------
+    # (type the impl is for, bound of T is `InflectableEntry<NS>` and the body calls T's own methods)
+    impls = []
+    for rel in ("inflectable_entry_impls.rs", "close_value_impls.rs"):
+        fsrc = open(os.path.join(REPO, "metrique-core", "src", rel)).read().split("#[cfg(test)]")[0]
+        for m in re.finditer(r"\nimpl<([^{]*?)>\s*(?:crate::)?InflectableEntry<NS>\s+for\s+([^{]+?)\s*\{(.*?)\n\}\n", fsrc, re.S):
+            generics, target, body = m.group(1), " ".join(m.group(2).split()), m.group(3)
+            ok = re.search(r"\bT:\s*(?:crate::)?InflectableEntry<NS>", generics) is not None
+            # the wrapped entry's methods are called at the same NS: `(**self).write(writer)` resolves through
+            # the bound above; the explicit form is `<T as InflectableEntry<NS>>::write`
+            if "fn write" not in body:
+                ok = False
+            if re.search(r"as\s+(?:crate::)?InflectableEntry\s*>", body) or re.search(r"InflectableEntry<(?!NS>)", body):
+                ok = False
+            if not (re.search(r"\(\*\*self\)\.write\(writer\)|entry\.write\(writer\)|<T as InflectableEntry<NS>>::write\(", body)):
+                ok = False
+            impls.append((target, ok, "fn sample_group" in body))
+    if not impls:
+        raise Exception("metrique-core: no forwarding InflectableEntry<NS> impls found")
+    # no other file of metrique-core may implement InflectableEntry<NS> for a container
+    for fn in sorted(os.listdir(os.path.join(REPO, "metrique-core", "src"))):
+        if fn.endswith(".rs") and fn not in ("inflectable_entry_impls.rs", "close_value_impls.rs"):
+            t = open(os.path.join(REPO, "metrique-core", "src", fn)).read()
+            if re.search(r"\nimpl<[^{]*>\s*(?:crate::)?InflectableEntry<NS>\s+for", t):
+                raise Exception(f"metrique-core/src/{fn}: an InflectableEntry<NS> impl outside the two known files")
+    impl_lines = ",\n".join(f'  ("{t}", {"true" if ok else "false"}, {"true" if sg else "false"})' for t, ok, sg in impls)
     out = f"""/-! GENERATED by tools/gen_naming.py from metrique-core/src/concat.rs — do not edit. -/
 namespace Generated.Naming
 
@@ -58,6 +84,13 @@ def haveValLimit : Nat := {have}
 
 /-- largest literal arm `N => ConcatenatedLen::<S, T, N>::MAYBE_VAL` of the MAYBE_VAL match (arms are 0 ..= N, then `_ => ""`) -/
 def matchLimit : Nat := {match_limit}
+
+/-- every `impl<NS, T, …> InflectableEntry<NS> for <container of T>` of metrique-core
+(inflectable_entry_impls.rs, close_value_impls.rs): (the type, `T: InflectableEntry<NS>` and the body
+calls `T`'s own `write` at that `NS`, the impl overrides `sample_group`) -/
+def forwardingImpls : List (String × Bool × Bool) := [
+{impl_lines}
+]
 
 end Generated.Naming
 """
